@@ -213,18 +213,23 @@ PROPS["C09"] = {
 }
 
 PROPS["C02"] = {
-    "modules": ["contracts.ops_smoothers", "contracts.c14"],
-    "contracts": ["hdc/algo/ops/ws2dgu.py::ws2dgu", "hdc/algo/ops/ws2dpgu.py::ws2dpgu"],
+    "modules": ["contracts.ops_smoothers", "contracts.c14", "contracts.rel_smoothers"],
+    "contracts": ["hdc/algo/ops/ws2dgu.py::ws2dgu", "hdc/algo/ops/ws2dpgu.py::ws2dpgu",
+                  "hdc/algo/ops/ws2dgu.py::ws2dgu@rel", "hdc/algo/ops/ws2dpgu.py::ws2dpgu@rel",
+                  "hdc/algo/ops/ws2dwcv.py::ws2dwcv@rel", "hdc/algo/ops/ws2dwcvp.py::ws2dwcvp@rel"],
     "standin": True,
     "level": "other",
-    "trusted": ["z3 5.1 / cvc5 1.0.3", "see C03 for the two fixed-lambda contracts"],
-    "not_proved": ["placeholder non-interference is a relational (two-run) property: the lockstep self-composition in model U described in DESIGN.md is not built; it is decided by the bounded stand-in (all eight variants x placeholder encodings)",
-                   "V-curve / GCV variants: no functional contract, bounded only"],
-    "assumptions": ["model R for the two contracts (0 * placeholder = 0 holds in R, so NaN/inf placeholders are visible only to the stand-in)"],
-    "level_text": "partly deductive: for ws2dgu / ws2dpgu the discharged contracts (C03) state the result as a function of the validity weights VW and the products VW[i]*y[i] only (missing cells enter with weight 0) and the pass-through for fewer than 2 valid cells; the placeholder-independence itself, the NaN/inf encodings and the six selecting variants are decided by a bounded stand-in that compares every placeholder encoding of the same series (labelled bounded)",
-    "level_note": "mixed: functional contracts for the fixed-lambda kernels; relational clause and remaining variants bounded only",
-    "technique": "contract-based deductive verification (functional postconditions over validity weights) + bounded run-time check of the relational contract on placeholder pairs",
-    "explanation": "the relational (two-run) obligations of DESIGN.md §4 C02 are replaced by a bounded comparison of placeholder encodings; functional contracts of ws2dgu/ws2dpgu are discharged",
+    "trusted": ["z3 5.1 / cvc5 1.0.3", "see C03 for the two fixed-lambda functional contracts",
+                "relational contracts: the core solver ws2d enters as a deterministic function of its in-range inputs (y, lmda, w) (call-site contract ws2d@U; its body is verified functionally under C01, in model R)",
+                "model U: every float operation, np.sum, np.cos, rounding and the int16 cast are uninterpreted deterministic functions; loops without a contract are summarised as deterministic functions of the cells and scalars they read"],
+    "not_proved": ["V-curve variants (ws2doptv, ws2doptvp, ws2doptvplc) and the robust GCV branch: placeholder independence is decided by the bounded stand-in only (the V-curve kernels pass the placeholder to the solver and rely on 0 * placeholder = 0; the robust branch selects cells with a boolean mask whose lockstep similarity the per-statement lemmas do not reach)",
+                   "the clause 'the output at missing cells is the gap-filled value of the fitted curve' is carried by the functional contracts of ws2dgu/ws2dpgu (C03) for the fixed-lambda kernels and bounded elsewhere"],
+    "assumptions": ["model R for the two functional contracts (0 * placeholder = 0 holds in R, so NaN/inf placeholders are visible only to the relational contracts and the stand-in)",
+                    "relational contracts quantify over two runs with the same missing mask and the same valid values; placeholders, the nodata value itself, NaN and +-inf cells are arbitrary and may differ between the runs"],
+    "level_text": "mixed: (1) relational two-run contracts, discharged for all inputs in the uninterpreted float model U, for ws2dgu, ws2dpgu and the non-robust GCV kernels ws2dwcv, ws2dwcvp: two runs whose inputs have the same missing mask (nodata / NaN / inf) and the same valid values return the same int16 band and the same lambda, bit for bit, and take the same minimum-valid-count branch; (2) functional contracts of ws2dgu / ws2dpgu (C03): result as a function of the validity weights and the products VW[i]*y[i], pass-through below 2 valid cells; (3) the V-curve variants and the robust GCV branch are decided by a bounded stand-in comparing every placeholder encoding of the same series (labelled bounded)",
+    "level_note": "mixed: relational contracts proved for 4 of 8 variants (fixed, asymmetric, GCV, GCV asymmetric; non-robust); V-curve variants and robust mode bounded only",
+    "technique": "contract-based deductive verification (lockstep self-composition in an uninterpreted float model; functional postconditions over validity weights) + bounded run-time check of the relational contract on placeholder pairs",
+    "explanation": "relational obligations are discharged for the kernels whose missing cells are zero-filled before the solver; the remaining variants are compared on bounded placeholder pairs",
 }
 
 PROPS["C04"] = {
